@@ -229,14 +229,20 @@ def fieldNamesNotReserved (ts : TypeSystem) : Bool := ts.types.all fun d => d.fi
 def argNamesNotReserved (ts : TypeSystem) : Bool := ts.argDefs.all fun a => !reserved a.name
 /-- S: … nor a directive name -/
 def directiveNamesNotReserved (ts : TypeSystem) : Bool := ts.directives.all fun d => !reserved d.name
-/-- S: … nor an enum value name -/
+/-- S: … nor an enum value name (enum values exist on enum types only, cf. `directiveUses`) -/
 def enumValueNamesNotReserved (ts : TypeSystem) : Bool :=
-  ts.types.all fun d => d.enumValues.all fun v => !reserved v.name
+  ts.types.all fun d => d.kind != .enum || d.enumValues.all fun v => !reserved v.name
 
 /- ------------------------------------------------------------------ E-clauses (loader-specific) -/
 
 /-- E: at most one `schema` definition -/
 def singleSchemaDef (sd : SchemaDoc) : Bool := sd.schema.length ≤ 1
+
+/-- E: every root operation type is defined at most once over the schema definition and its
+    extensions (the specification forbids a second definition; the loader rejects it) -/
+def rootOperationTypesOnce (sd : SchemaDoc) : Bool :=
+  let ops := ((sd.schema ++ sd.schemaExt).flatMap (·.opTypes)).map (·.op)
+  [str "query", str "mutation", str "subscription"].all fun o => (ops.filter (· == o)).length ≤ 1
 
 /-- E: an extension has the kind of its base (of the first extension when there is no base) -/
 def extensionKindsMatch (sd : SchemaDoc) : Bool :=
@@ -282,7 +288,8 @@ def clauses (sd : SchemaDoc) : List (String × Bool) :=
     ("S.enumValueNamesNotReserved", enumValueNamesNotReserved ts),
     ("E.singleSchemaDef", singleSchemaDef sd), ("E.extensionKindsMatch", extensionKindsMatch sd),
     ("E.enumValuesNotLiterals", enumValuesNotLiterals ts), ("E.directiveArgsDeclared", directiveArgsDeclared ts),
-    ("E.noSelfReference", noSelfReference ts), ("E.appliedNamesNotReserved", appliedNamesNotReserved ts) ]
+    ("E.noSelfReference", noSelfReference ts), ("E.appliedNamesNotReserved", appliedNamesNotReserved ts),
+    ("E.rootOperationTypesOnce", rootOperationTypesOnce sd) ]
 
 def wfB (sd : SchemaDoc) : Bool := (clauses sd).all (·.2)
 
@@ -313,16 +320,17 @@ structure WellFormed (sd : SchemaDoc) : Prop where
   directiveArgsDeclared : directiveArgsDeclared (.ofDoc sd) = true
   noSelfReference : noSelfReference (.ofDoc sd) = true
   appliedNamesNotReserved : appliedNamesNotReserved (.ofDoc sd) = true
+  rootOperationTypesOnce : rootOperationTypesOnce sd = true
 
 theorem wfB_iff (sd : SchemaDoc) : wfB sd = true ↔ WellFormed sd := by
   constructor
   · intro h
     simp only [wfB, clauses, List.all_cons, List.all_nil, Bool.and_true, Bool.and_eq_true] at h
-    obtain ⟨h1, h2, h3, h4, h5, h6, h7, h8, h9, h10, h11, h12, h13, h14, h15, h16, h17, h18, h19, h20, h21, h22, h23, h24, h25⟩ := h
-    exact ⟨h1, h2, h3, h4, h5, h6, h7, h8, h9, h10, h11, h12, h13, h14, h15, h16, h17, h18, h19, h20, h21, h22, h23, h24, h25⟩
-  · intro ⟨h1, h2, h3, h4, h5, h6, h7, h8, h9, h10, h11, h12, h13, h14, h15, h16, h17, h18, h19, h20, h21, h22, h23, h24, h25⟩
+    obtain ⟨h1, h2, h3, h4, h5, h6, h7, h8, h9, h10, h11, h12, h13, h14, h15, h16, h17, h18, h19, h20, h21, h22, h23, h24, h25, h26⟩ := h
+    exact ⟨h1, h2, h3, h4, h5, h6, h7, h8, h9, h10, h11, h12, h13, h14, h15, h16, h17, h18, h19, h20, h21, h22, h23, h24, h25, h26⟩
+  · intro ⟨h1, h2, h3, h4, h5, h6, h7, h8, h9, h10, h11, h12, h13, h14, h15, h16, h17, h18, h19, h20, h21, h22, h23, h24, h25, h26⟩
     simp only [wfB, clauses, List.all_cons, List.all_nil, Bool.and_true, Bool.and_eq_true]
-    exact ⟨h1, h2, h3, h4, h5, h6, h7, h8, h9, h10, h11, h12, h13, h14, h15, h16, h17, h18, h19, h20, h21, h22, h23, h24, h25⟩
+    exact ⟨h1, h2, h3, h4, h5, h6, h7, h8, h9, h10, h11, h12, h13, h14, h15, h16, h17, h18, h19, h20, h21, h22, h23, h24, h25, h26⟩
 
 instance (sd : SchemaDoc) : Decidable (WellFormed sd) := decidable_of_iff _ (wfB_iff sd)
 
@@ -520,7 +528,18 @@ def introspectionFieldsB (s : Schema) : Bool :=
 
 def IntrospectionFields (s : Schema) : Prop := introspectionFieldsB s = true
 
+/-- the root operation types are object types (GraphQL §3.3.1).  The loader does NOT enforce this
+    (`input Query { … }` becomes the query root and receives `__schema`/`__type`); the clause is judged
+    on the real loader's output and is a recorded finding, not part of `Closed`. -/
+def rootTypesAreObjects (s : Schema) : Bool :=
+  [s.query, s.mutation, s.subscription].all fun r =>
+    match r with
+    | none => true
+    | some n => typeIs s n (· == .object)
+
 def loadedClauses (s : Schema) : List (String × Bool) :=
-  closedClauses s ++ relationClauses s ++ [("hasBuiltins", hasBuiltinsB s), ("introspectionFields", introspectionFieldsB s)]
+  closedClauses s ++ relationClauses s ++
+    [("hasBuiltins", hasBuiltinsB s), ("introspectionFields", introspectionFieldsB s),
+     ("rootTypesAreObjects", rootTypesAreObjects s)]
 
 end Gql.Spec
